@@ -19,6 +19,117 @@ fn lines(s: &str) -> BTreeSet<String> {
     s.lines().filter(|l| !l.trim().is_empty()).map(|l| l.to_string()).collect()
 }
 
+/// A rebuild is killed part-way; the queries come between the kill and the
+/// recovery run: what the recovery rebuilds must have been listed by redo-ood.
+fn killed_case(rng: &mut Rng, seed: u64) -> Case {
+    let mut p = GraphParams::small(rng);
+    p.n_targets = rng.range(2, 5) as usize;
+    p.n_sources = 2;
+    p.csum_pm = *rng.pick(&[0, 400]);
+    p.always_pm = 0;
+    p.max_work_ms = *rng.pick(&[0, 5, 50]);
+    let g = gen_graph(rng, &p);
+    let mut sc = g.scenario("c17-killed");
+    let top = g.top();
+    let mut key = 1u64;
+    let mut keyed = |mut c: Cmd| -> Cmd {
+        key += 1;
+        c.key = Some(key);
+        c
+    };
+    let c0 = redo_cmd(rng, "redo-ifchange", &[top.clone()], 3, 100);
+    sc.history.push(Step::Cmds(vec![keyed(c0)]));
+    for s in &g.sources {
+        if rng.chance(2, 3) || s == &g.sources[0] {
+            sc.history.push(Step::Write {
+                path: s.clone(),
+                bytes: source_content(s, 1),
+            });
+        }
+    }
+    let killed_group = sc.history.len();
+    let prog = if rng.chance(1, 2) { "redo" } else { "redo-ifchange" };
+    let c1 = redo_cmd(rng, prog, &[top.clone()], 3, 100);
+    sc.history.push(Step::Cmds(vec![keyed(c1)]));
+    let ood_group = sc.history.len();
+    sc.history.push(Step::Cmds(vec![keyed(Cmd::new(&["redo-ood"]))]));
+    sc.history.push(Step::Cmds(vec![keyed(Cmd::new(&["redo-targets"]))]));
+    sc.history.push(Step::Cmds(vec![keyed(Cmd::new(&["redo-sources"]))]));
+    let recovery_group = sc.history.len();
+    let c2 = redo_cmd(rng, "redo-ifchange", &[top], 2, 100);
+    sc.history.push(Step::Cmds(vec![keyed(c2)]));
+    let mut opts = PlayOpts::default();
+    if rng.chance(1, 2) {
+        opts.kill_cmd_at = Some((killed_group, 0, rng.range(40, 700)));
+    } else {
+        opts.kill_at = Some((killed_group, rng.range(5, 250), rng.chance(1, 2)));
+    }
+    let mut meta = BTreeMap::new();
+    meta.insert("killed_group".into(), serde_json::json!(killed_group));
+    meta.insert("ood_group".into(), serde_json::json!(ood_group));
+    meta.insert("recovery_group".into(), serde_json::json!(recovery_group));
+    Case {
+        property: "C17".into(),
+        seed,
+        scenario: sc,
+        knobs: Knobs::draw(rng),
+        opts,
+        meta,
+    }
+}
+
+fn killed_check(case: &Case, rec: &RunRecord) -> Vec<Violation> {
+    let mut v = Vec::new();
+    let gi = |k: &str| case.meta.get(k).and_then(|x| x.as_u64()).unwrap_or(u64::MAX) as usize;
+    let find = |i: usize| rec.groups.iter().find(|g| g.step_idx == i);
+    let (kg, og, rg) = match (find(gi("killed_group")), find(gi("ood_group")), find(gi("recovery_group"))) {
+        (Some(a), Some(b), Some(c)) => (a, b, c),
+        _ => return v,
+    };
+    let fired = match &kg.kill_fired {
+        Some(f) => f.clone(),
+        None => return v,
+    };
+    if !judgeable(og) || !judgeable(rg) {
+        return v;
+    }
+    for g in rec.groups.iter().filter(|g| is_query(&g.cmds[0])) {
+        if g.results[0].status != Some(0) {
+            v.push(Violation {
+                kind: "query-failed".into(),
+                detail: format!(
+                    "history step {} {:?} after {} exited {:?}; stderr: {}",
+                    g.step_idx, g.cmds[0].argv, fired, g.results[0].status, c09::tail(&g.results[0].stderr, 300)
+                ),
+            });
+            return v;
+        }
+    }
+    if rg.results[0].status != Some(0) {
+        // recovery itself is C10's business
+        return v;
+    }
+    // generated per the database before the killed command started
+    let before = match rec.db_after[..kg.step_idx].iter().rev().flatten().next() {
+        Some(d) => d,
+        None => return v,
+    };
+    let listed = lines(&og.results[0].stdout);
+    for t in exec_counts(rg).keys() {
+        let was_target = before.files.get(t).map_or(false, |f| f.0);
+        if was_target && !listed.contains(t) {
+            v.push(Violation {
+                kind: "ood-misses-dirty-target".into(),
+                detail: format!(
+                    "after {} (history step {}): redo-ood lists {:?}, not {}, a target generated before, which the following redo-ifchange rebuilds",
+                    fired, kg.step_idx, listed, t
+                ),
+            });
+        }
+    }
+    v
+}
+
 impl Property for C17 {
     fn id(&self) -> &'static str {
         "C17"
@@ -46,7 +157,10 @@ impl Property for C17 {
             .iter()
             .any(|g| is_query(&g.cmds[0]) && !g.results[0].stdout.trim().is_empty())
     }
-    fn generate(&self, rng: &mut Rng, seed: u64, _tier: Tier, _index: u64) -> Case {
+    fn generate(&self, rng: &mut Rng, seed: u64, _tier: Tier, index: u64) -> Case {
+        if index % 5 == 4 {
+            return killed_case(rng, seed);
+        }
         let mut p = GraphParams::small(rng);
         p.n_targets = rng.range(3, 6) as usize;
         p.n_sources = 2;
@@ -145,7 +259,11 @@ impl Property for C17 {
             meta: BTreeMap::new(),
         }
     }
-    fn check(&self, _case: &Case, rec: &RunRecord, _obs: &dyn Observer) -> Vec<Violation> {
+    fn check(&self, case: &Case, rec: &RunRecord, _obs: &dyn Observer) -> Vec<Violation> {
+        if case.scenario.family == "c17-killed" {
+            return killed_check(case, rec);
+        }
+        let _case = case;
         let mut v = Vec::new();
         let mut m = SeenModel::default();
         let empty = BTreeMap::new();
@@ -321,7 +439,10 @@ impl Property for C17 {
             Step::Cmds(v) => !is_query(&v[0]),
             _ => true,
         });
-        Some((sc, case.knobs.clone(), PlayOpts::default()))
+        // (the queries of the killed-build family come after the killed group, so
+        // its index and the kill plan stay valid)
+        let opts = if case.scenario.family == "c17-killed" { case.opts.clone() } else { PlayOpts::default() };
+        Some((sc, case.knobs.clone(), opts))
     }
     fn check_with_reference(&self, _case: &Case, rec: &RunRecord, re: &RunRecord) -> Vec<Violation> {
         let mut v = Vec::new();
